@@ -27,6 +27,8 @@ class Registry:
         self.inline = {}         # callee name -> (relpath, qualname)
         self.dataclasses = {}    # class name -> repo file
         self.extracts = []       # (module, owner, [names])
+        self.flow_contracts = {} # "file::flow" -> FlowContract
+        self.flow_files = []     # [(file, version)] to be parsed by the REAL parser (native/extract.py)
         self.sidecars = []
 
 
@@ -111,6 +113,36 @@ def consts_from(module, owner, names):
     """constants read from the REAL module by native/extract.py before the prover runs: `owner.NAME` becomes usable in the
     verified code and in contracts (e.g. InternalEvents.FLOW_FINISHED)"""
     REG.extracts.append((module, owner, list(names)))
+
+
+class FlowContract:
+    def __init__(self, file, flow, version="1.0", **kw):
+        self.file, self.flow, self.version = file, flow, version
+        self.prop = kw.pop("prop", None)
+        self.ghost = kw.pop("ghost", {})                  # ghost integer variables -> initial value (entry flows) / arbitrary (subflows)
+        self.requires = kw.pop("requires", [])
+        self.ensures = kw.pop("ensures", [])              # on normal completion of the flow
+        self.at_event = kw.pop("at_event", {})            # event type -> clauses checked where the flow CREATES that event
+        self.at_action = kw.pop("at_action", {})          # action name -> clauses checked where the flow executes that action
+        self.at_call = kw.pop("at_call", {})              # callee flow name (or "<dynamic>") -> clauses checked at the call
+        self.loops = kw.pop("loops", {})                  # while-expression text -> dict(inv=[...])
+        self.assigns = kw.pop("assigns", [])              # context / ghost variables the flow may change (for callers)
+        self.may_stop = kw.pop("may_stop", False)
+        self.is_subflow = kw.pop("subflow", False)
+        self.dynamic = kw.pop("dynamic", None)            # contract of a dynamic `do $flows[$i]` callee: dict(havoc=[..], may_stop=bool, effect={ghost: expr})
+        self.opts = kw
+
+    @property
+    def key(self):
+        return "%s::%s" % (self.file, self.flow)
+
+
+def flow_contract(file, flow, **kw):
+    c = FlowContract(file, flow, **kw)
+    REG.flow_contracts[c.key] = c
+    if (file, c.version) not in REG.flow_files:
+        REG.flow_files.append((file, c.version))
+    return c
 
 
 def dataclass_of(name, file):
